@@ -55,8 +55,9 @@ Section C17.
 
   (** An accepted value satisfies the checks of its type: the signature is valid for the key and
       the body; the block level inclusion proofs verify against the header's data hash; for the
-      filtered block every per-rollup proof verifies against the header's rollup transactions
-      root. *)
+      full AND the filtered sequencer block every per-rollup proof verifies against the header's
+      rollup transactions root ([seq_block_checks] / [filtered_checks] contain
+      [rollup_proofs_verify]; stated separately as [C17_rollup_proofs_verify]). *)
   Theorem C17_accepted_consistent :
     (forall r v, tx_from_raw r = ROk v -> tx_checks v = true) /\
     (forall r v, seq_block_from_raw r = ROk v -> seq_block_checks v = true) /\
@@ -114,21 +115,39 @@ Theorem C17_wire_lift :
                  blob_decode W Raw V wdec decompress from_raw (compress (wenc (to_raw v))) = ROk v).
 Proof. exact wire_lift. Qed.
 
-(** The per-rollup statement for the FULL sequencer block is false of the code: there is an
-    instantiation (with a sound equality test) and a raw block that [SequencerBlock::try_from_raw]
-    accepts although a [RollupTransactions.proof] does not verify against the header. *)
-Theorem C17_seq_block_rollup_proofs_refuted :
+(** Every per-rollup inclusion proof of an accepted full or filtered sequencer block verifies
+    against the rollup transactions root of its header (for the full block since the repair of
+    finding F11). *)
+Theorem C17_rollup_proofs_verify :
+  forall (B : Type) (blen : B -> N) (beq : B -> B -> bool) (cat : B -> B -> B)
+         (sha leafH : B -> B) (nodeH : B -> B -> B) (emptyH : B) (cid_ok : B -> bool)
+         (eci_parse : B -> eci_res),
+    (forall r v,
+       seq_block_from_raw B blen beq cat sha leafH nodeH emptyH cid_ok eci_parse r = ROk v ->
+       rollup_proofs_verify B beq cat leafH nodeH emptyH (h_rtr B (s_hdr B v)) (s_rts B v) = true) /\
+    (forall r v,
+       filtered_from_raw B blen beq cat sha leafH nodeH emptyH cid_ok eci_parse r = ROk v ->
+       rollup_proofs_verify B beq cat leafH nodeH emptyH (h_rtr B (f_hdr B v)) (f_rts B v) = true).
+Proof. exact rollup_proofs_verify_accepted. Qed.
+
+(** What finding F11 was: for the decoder as it was BEFORE the repair
+    ([seq_block_from_raw_before_F11_fix]: the same checks without the per-rollup audit) there is an
+    instantiation (with a sound equality test) and a raw block that it accepts although a
+    [RollupTransactions.proof] does not verify against the header. *)
+Theorem C17_seq_block_before_F11_fix_refuted :
   exists (B : Type) (blen : B -> N) (beq : B -> B -> bool) (cat : B -> B -> B)
          (sha leafH : B -> B) (nodeH : B -> B -> B) (emptyH : B) (cid_ok : B -> bool)
          (eci_parse : B -> eci_res),
     (forall a b : B, beq a b = true <-> a = b) /\
     ~ (forall r v,
-         seq_block_from_raw B blen beq cat sha leafH nodeH emptyH cid_ok eci_parse r = ROk v ->
+         seq_block_from_raw_before_F11_fix B blen beq cat sha leafH nodeH emptyH cid_ok eci_parse r
+         = ROk v ->
          rollup_proofs_verify B beq cat leafH nodeH emptyH (h_rtr B (s_hdr B v)) (s_rts B v) = true).
-Proof. exact seq_block_rollup_proofs_refuted. Qed.
+Proof. exact seq_block_before_F11_fix_refuted. Qed.
 
 Print Assumptions C17_decode_total.
 Print Assumptions C17_accepted_consistent.
 Print Assumptions C17_reencode.
 Print Assumptions C17_wire_lift.
-Print Assumptions C17_seq_block_rollup_proofs_refuted.
+Print Assumptions C17_rollup_proofs_verify.
+Print Assumptions C17_seq_block_before_F11_fix_refuted.
